@@ -274,7 +274,8 @@ def vector_forms(ctx, k, K):
 def packed_scalar(ctx):
     import spatialmath as sm
     import spatialmath.base as b
-    vals = [('g', (1.0, -2.0, 0.5)), ('int', (1, 2, 3)), ('small', (1e-6, 0.0, -1e-6)), ('angles', (0.3, -0.4, 0.5)), ('zero', (0.0, 0.0, 0.0))]
+    vals = [('g', (1.0, -2.0, 0.5)), ('int', (1, 2, 3)), ('small', (1e-6, 0.0, -1e-6)), ('angles', (0.3, -0.4, 0.5)), ('zero', (0.0, 0.0, 0.0)),
+            ('x-only', (3.0, 0.0, 0.0)), ('x-only-int', (3, 0, 0)), ('y-zero', (1.0, 0.0, 0.5)), ('theta-zero', (1.0, 2.0, 0.0)), ('x-zero', (0.0, 2.0, 0.5))]
     ents = [('base.transl', lambda x, y, z: b.transl(x, y, z), lambda v: b.transl(v)), ('base.rpy2r', lambda x, y, z: b.rpy2r(x, y, z), lambda v: b.rpy2r(v)),
             ('base.rpy2tr', lambda x, y, z: b.rpy2tr(x, y, z), lambda v: b.rpy2tr(v)), ('base.eul2r', lambda x, y, z: b.eul2r(x, y, z), lambda v: b.eul2r(v)),
             ('base.eul2tr', lambda x, y, z: b.eul2tr(x, y, z), lambda v: b.eul2tr(v)), ('SE3', lambda x, y, z: sm.SE3(x, y, z), lambda v: sm.SE3(v)),
@@ -291,7 +292,7 @@ def packed_scalar(ctx):
                 ctx.fail(cid, site, 'raises:' + type(r).__name__, P, '%r' % (r,))
             elif canon(r[0]) != canon(r[1]):
                 ctx.fail(cid, site, 'mismatch', P, 'separate scalars and packed %s give different results' % fname)
-    for vn, v in (('g', (1.0, -2.0)), ('int', (3, 4)), ('zero', (0.0, 0.0))):
+    for vn, v in (('g', (1.0, -2.0)), ('int', (3, 4)), ('zero', (0.0, 0.0)), ('y-zero', (3.0, 0.0)), ('y-zero-int', (3, 0)), ('x-zero', (0.0, 2.0))):
         for fname, mk in (('list', lambda: list(v)), ('tuple', lambda: tuple(v)), ('1d', lambda: np.array(v, dtype=float))):
             for site, fs, fp in (('base.transl2', lambda x, y: b.transl2(x, y), lambda w: b.transl2(w)), ('SE2', lambda x, y: sm.SE2(x, y), lambda w: sm.SE2(w))):
                 cid = 'C15/packed/%s/xy/%s/%s' % (site, vn, fname)
@@ -328,6 +329,11 @@ def angle_entries():
         for fn in ('Rx', 'Ry', 'Rz'):
             E.append(('%s.%s' % (cn, fn), lambda a, u, Cc=Cc, fn=fn: getattr(Cc, fn)(a, u)))
             E.append(('%s.%s/vector' % (cn, fn), lambda a, u, Cc=Cc, fn=fn: getattr(Cc, fn)([a, a / 2], u)))
+        if cn in ('SO3', 'SE3'):
+            # one value per row of an N x 3 array of angles
+            E.append((cn + '.RPY/Nx3', lambda a, u, Cc=Cc: Cc.RPY(np.array([[a, a / 2, -a / 3], [a / 3, -a, a / 2]]), unit=u)))
+            E.append((cn + '.RPY/Nx3/yxz', lambda a, u, Cc=Cc: Cc.RPY(np.array([[a, a / 2, -a / 3], [a / 3, -a, a / 2], [0.1 * a, a, a]]), unit=u, order='yxz')))
+            E.append((cn + '.Eul/Nx3', lambda a, u, Cc=Cc: Cc.Eul(np.array([[a, a / 2, -a / 3], [a / 3, -a, a / 2]]), unit=u)))
         if cn != 'Twist3':
             E.append((cn + '.RPY', lambda a, u, Cc=Cc: Cc.RPY([a, a / 2, -a / 3], unit=u)))
             E.append((cn + '.RPY/xyz', lambda a, u, Cc=Cc: Cc.RPY([a, a / 2, -a / 3], unit=u, order='xyz')))
